@@ -137,8 +137,19 @@ impl Frame {
         Ok(())
     }
 
+    // The address attribute has a one byte length: a longer host name can not be sent
+    pub fn check_addr(&self) -> IoResult<()> {
+        match &self.addr {
+            Some(TargetAddress::DomainPort(host, _)) if host.len() + 2 > u8::MAX as usize => Err(
+                IoError::new(ErrorKind::InvalidInput, "host name too long for a frame"),
+            ),
+            _ => Ok(()),
+        }
+    }
+
     // Write head and body to output stream
     pub async fn write_to<T: AsyncWrite + Unpin>(&self, output: &mut T) -> IoResult<usize> {
+        self.check_addr()?;
         let head = self.make_header();
         output.write_all(&head).await?;
         output.write_all(&self.body).await?;
